@@ -816,3 +816,49 @@ Definition structure_preserved (defs : list def) (items : list ritem) : bool :=
 Definition structure_preserved_upto (eb ed ea : bool) (defs : list def) (items : list ritem) : bool :=
   evs_eqb (map (ev_erase eb ed ea) (shape_of_items 0 items))
           (map (ev_erase eb ed ea) (shape_of_defs [] defs)).
+
+(* ----------------------------------------- projections of a declared structure *)
+(* (each is what one clause of the property talks about) *)
+
+(* names of everything declared, with the module nesting *)
+Definition ev_name (e : ev) : string :=
+  match e with
+  | EEnter n => String.append "module " n | ELeave => "end"
+  | EStruct n _ _ _ _ => String.append "struct " n | EEnum n _ _ _ => String.append "enum " n
+  | EUnion n _ _ _ => String.append "union " n | EAlias n _ => String.append "typedef " n
+  | EConst n _ _ => String.append "const " n | EBad => "?"
+  end.
+Definition names_of (l : list ev) : list string := map ev_name l.
+
+Definition struct_proj {A} (f : list mshape -> A) (e : ev) : list (string * A) :=
+  match e with EStruct n _ _ _ ms => [(n, f ms)] | _ => [] end.
+(* member names in declaration order *)
+Definition members_of (l : list ev) := flat_map (struct_proj (map ms_name)) l.
+(* member kinds (type, array sizes, bounds, optional wrapper) *)
+Definition member_kinds_of (l : list ev) := flat_map (struct_proj (map (fun m => (ms_name m, ms_kind m)))) l.
+(* key members *)
+Definition keys_of (l : list ev) := flat_map (struct_proj (fun ms => map ms_name (filter ms_key ms))) l.
+(* member ids *)
+Definition ids_of (l : list ev) := flat_map (struct_proj (map (fun m => (ms_name m, ms_id m)))) l.
+(* optional members *)
+Definition optionals_of (l : list ev) := flat_map (struct_proj (fun ms => map ms_name (filter ms_opt ms))) l.
+(* extensibility, base type and qualified name of every struct *)
+Definition struct_headers_of (l : list ev) : list (string * (list string * option string * option kind)) :=
+  flat_map (fun e => match e with EStruct n qn ext base _ => [(n, (qn, ext, base))] | _ => [] end) l.
+(* enumerators with their explicit values, bit bound *)
+Definition enums_of (l : list ev) : list (string * (list string * option cexpr * list (string * list cexpr))) :=
+  flat_map (fun e => match e with EEnum n qn bb es => [(n, (qn, bb, es))] | _ => [] end) l.
+(* union discriminator, and per case: labels, default, member name and kind *)
+Definition unions_of (l : list ev) : list (string * (list string * kind * list cshape)) :=
+  flat_map (fun e => match e with EUnion n qn d cs => [(n, (qn, d, cs))] | _ => [] end) l.
+Definition union_labels_of (l : list ev) : list (string * list (string * list cexpr * bool)) :=
+  flat_map (fun e => match e with
+                     | EUnion n _ _ cs => [(n, map (fun c => (cs_name c, cs_labels c, cs_default c)) cs)]
+                     | _ => [] end) l.
+(* aliases and constants *)
+Definition aliases_of (l : list ev) : list (string * kind) :=
+  flat_map (fun e => match e with EAlias n k => [(n, k)] | _ => [] end) l.
+Definition consts_of (l : list ev) : list (string * kind * cexpr) :=
+  flat_map (fun e => match e with EConst n k x => [(n, k, x)] | _ => [] end) l.
+Definition enumerators_of (l : list ev) : list (string * list (string * list cexpr)) :=
+  flat_map (fun e => match e with EEnum n _ _ es => [(n, es)] | _ => [] end) l.
